@@ -408,72 +408,70 @@ pub fn relational_pair(a: &DataType, b: &DataType) -> bool {
     }
 }
 
-/// A coarse cause label derived from the witness value of a violation
+/// A coarse cause label derived from the witness value of a violation: the highest-priority special leaf it contains
 pub fn witness_cause(v: &Value) -> &'static str {
-    fn leaf(v: &Value) -> Option<&'static str> {
+    fn leaves(v: &Value, out: &mut Vec<&'static str>) {
         match v {
             Value::Float(f) => {
                 let f: f64 = **f;
                 if f == 0.0 {
-                    Some("float_zero")
+                    out.push("float_zero")
                 } else if f.abs() >= 9007199254740992.0 {
-                    Some("beyond_2p53")
-                } else if f != 0.0 && f.abs() < 1e-4 {
-                    Some("tiny_float")
-                } else {
-                    None
+                    out.push("beyond_2p53")
+                } else if f.abs() < 1e-4 {
+                    out.push("tiny_float")
                 }
             }
             Value::Integer(i) => {
                 let i: i64 = **i;
                 if i.unsigned_abs() >= (1u64 << 53) {
-                    Some("beyond_2p53")
-                } else {
-                    None
+                    out.push("beyond_2p53")
                 }
             }
             Value::Date(d) => {
                 let d: chrono::NaiveDate = **d;
                 if d == chrono::NaiveDate::MIN || d == chrono::NaiveDate::MAX {
-                    Some("extreme_date")
-                } else {
-                    None
+                    out.push("extreme_date")
                 }
             }
             Value::DateTime(d) => {
                 let d: chrono::NaiveDateTime = **d;
                 if d.date() == chrono::NaiveDate::MIN || d.date() == chrono::NaiveDate::MAX {
-                    Some("extreme_date")
-                } else {
-                    None
+                    out.push("extreme_date")
                 }
             }
             Value::Duration(d) => {
                 let d: chrono::Duration = **d;
                 if d == chrono::Duration::MAX || d == chrono::Duration::MIN {
-                    Some("extreme_duration")
-                } else {
-                    None
+                    out.push("extreme_duration")
                 }
             }
             Value::Text(s) => {
                 let s: &String = &**s;
                 if s.is_empty() {
-                    Some("empty_text")
+                    out.push("empty_text")
                 } else if s.as_str() < "\u{1}" || s.as_str() >= "\u{10FFFF}" {
-                    Some("extreme_text")
-                } else {
-                    None
+                    out.push("extreme_text")
                 }
             }
             Value::Optional(o) => match o.as_ref() {
-                None => Some("null"),
-                Some(x) => leaf(x),
+                None => out.push("null"),
+                Some(x) => leaves(x, out),
             },
-            Value::Struct(s) => s.fields().iter().find_map(|(_, x)| leaf(x)),
-            Value::List(l) => l.to_vec().iter().find_map(leaf),
-            _ => None,
+            Value::Struct(s) => s.fields().iter().for_each(|(_, x)| leaves(x, out)),
+            Value::List(l) => l.to_vec().iter().for_each(|x| leaves(x, out)),
+            Value::Set(l) => l.iter().for_each(|x| leaves(x, out)),
+            Value::Array(a) => a.0.iter().for_each(|x| leaves(x, out)),
+            Value::Union(u) => leaves(&u.1, out),
+            _ => {}
         }
     }
-    leaf(v).unwrap_or("plain")
+    let mut out = vec![];
+    leaves(v, &mut out);
+    for c in ["beyond_2p53", "extreme_date", "float_zero", "empty_text", "extreme_text", "extreme_duration", "null", "tiny_float"] {
+        if out.contains(&c) {
+            return c;
+        }
+    }
+    "plain"
 }
